@@ -49,6 +49,10 @@ def cases(tier, seed):
         recs.append((['er', n, p, d, int(rs.randint(1 << 30))], d))
     for i, (g, d) in enumerate(recs):
         out.append({'g': g, 'directed': d, 'ws': seed * 100 + i, 'schemes': ['bin', 'int', 'dyad', 'real', 'neartie', 'bigint', 'logu']})
+    # sizes beyond any plausible fast-path threshold (hop tables are skipped there: O(n^4) oracle)
+    for n in ((130, 260, 300) if thorough else (260,)):
+        for d in (False, True):
+            out.append({'g': ['er', n, 2.5 / n, d, seed + n], 'directed': d, 'ws': n, 'schemes': ['bin', 'int'], 'big': True})
     for g in G.many_paths(200 if thorough else 131):
         out.append({'g': g, 'directed': g[-1] is True, 'ws': 1, 'schemes': ['bin', 'int']})
     return out
@@ -61,13 +65,13 @@ def mean_offdiag(M):
     return M[~np.eye(n, dtype=bool)].mean()
 
 
-def check_matrix(REC, bct, A, L, scheme, directed):
+def check_matrix(REC, bct, A, L, scheme, directed, big=False):
     """L: length matrix on the support A (0 = absent)."""
     n = len(L)
     exact = scheme in ('bin', 'int', 'dyad', 'neartie', 'bigint')
     rtol = 0.0 if exact else 1e-12
     D = O.floyd(L)
-    H = O.hop_sets(L, D, rtol=rtol)
+    H = None if big else O.hop_sets(L, D, rtol=rtol)
     off = ~np.eye(n, dtype=bool)
     fin = np.isfinite(D)
     det = {'L': L}
@@ -87,6 +91,8 @@ def check_matrix(REC, bct, A, L, scheme, directed):
         Bm = np.asarray(Bm)
         if Bm.shape != D.shape:
             return False
+        if H is None:   # big graphs: only "0 exactly for the diagonal and for unreachable pairs, >= 1 otherwise"
+            return bool(np.all((Bm == 0) == (~fin | ~off)))
         for i in range(n):
             for j in range(n):
                 if i == j:
@@ -162,12 +168,14 @@ def check_matrix(REC, bct, A, L, scheme, directed):
             Xb = np.asarray(Db, dtype=float)
             REC.check(PROP, 'distance_bin', 'distances', Xb.shape == Dbin.shape and bool(np.array_equal(np.isfinite(Xb), fb))
                       and bool(np.array_equal(Xb[fb], Dbin[fb])), dict(det, got=Db))
-    nontriv = (not fin[off].all()) or any(len(H[i][j]) > 1 for i in range(n) for j in range(n) if i != j) \
-        or not np.array_equal(L, L.T)
+    ties = H is not None and any(len(H[i][j]) > 1 for i in range(n) for j in range(n) if i != j)
+    nontriv = (not fin[off].all()) or ties or not np.array_equal(L, L.T)
     if not fin[off].all():
         REC.tag(PROP, 'class:unreachable_pair')
-    if any(len(H[i][j]) > 1 for i in range(n) for j in range(n) if i != j):
+    if ties:
         REC.tag(PROP, 'class:tie_with_different_hops')
+    if big:
+        REC.tag(PROP, 'class:more_than_100_nodes')
     if not np.array_equal(L, L.T):
         REC.tag(PROP, 'class:asymmetric')
     if nontriv:
@@ -224,7 +232,7 @@ def run(case, bct, REC):
     directed = case['directed']
     for sc in case['schemes']:
         L = G.weigh(A, sc, case['ws'], symmetric=not directed)
-        check_matrix(REC, bct, A, L, sc, directed)
+        check_matrix(REC, bct, A, L, sc, directed, big=case.get('big', False) or len(A) > 60)
         if sc in ('dyad', 'real') or (sc == 'bin' and len(A) <= 6):
             check_weights(REC, bct, A, L, directed)
     if len(A) <= 6:
